@@ -1,5 +1,5 @@
 (* engine c17: runs the Refcount model on the scripts of harness/c17_io.c (sub-engine "io") and on the open/close
-   skeleton of harness/c17_mll.c (sub-engine "mll").
+   skeleton of harness/c17_mll.c (sub-engine "mll"); sub-engine "h5": the forced close of the HDF5 identifiers of a file.
    io script:   variant cur|old ; fuel <n> ; world <kinds> <links a>b | a>b!> ; open <n> <r|m> ; walk|node <c> <n1|n1!> .. ; close <c>
    io output:   "<result> | io <num_open> <num_iolist> <slots> | adf <maximum_files> <in_use:fd:name:links;..> | fds <ledger size>"
                 or "diverge" when ADFI_close_file runs out of fuel (the C: unbounded recursion)
@@ -107,5 +107,20 @@ let run_mll () =
     | _ -> print_string ("badline " ^ line ^ "\n")
   done with End_of_file -> ())
 
+(* sub-engine "h5": the forced close of ADFH_Database_Close on the identifier census of one file.
+   input  close <datatypes> <datasets> <attributes> <groups>      output  <the four counts afterwards> <released 1|0> *)
+let run_h5 () =
+  (try while true do
+    let line = input_line stdin in
+    match words line with
+    | [] -> ()
+    | ["close"; t; d; a; g] ->
+        let s = { n_type = i2n (int_of_string t); n_dset = i2n (int_of_string d); n_attr = i2n (int_of_string a); n_group = i2n (int_of_string g) } in
+        let s' = forced_close passes_cur s in
+        Printf.printf "%d %d %d %d %d\n" (n2i s'.n_type) (n2i s'.n_dset) (n2i s'.n_attr) (n2i s'.n_group) (if file_released s' then 1 else 0)
+    | _ -> print_string ("badline " ^ line ^ "\n")
+  done with End_of_file -> ())
+
 let run () =
-  if Array.length Sys.argv > 1 && Sys.argv.(1) = "mll" then run_mll () else run_io ()
+  if Array.length Sys.argv > 1 && Sys.argv.(1) = "mll" then run_mll ()
+  else if Array.length Sys.argv > 1 && Sys.argv.(1) = "h5" then run_h5 () else run_io ()
